@@ -19,7 +19,7 @@ LEVEL_TEXT["C14"] = (
 )
 
 PROPS["C14"] = {
-    "gen": ["Cmplx", "SmallFft", "Consts", "Slice", "StepsBase", "StepsTuner", "CtorTuner", "StepsArray", "StepsSlice", "StepsFir", "StepsDelay"],
+    "gen": ["Cmplx", "SmallFft", "Consts", "Slice", "StepsBase", "StepsTuner", "CtorTuner", "StepsArray", "StepsSlice", "StepsFir", "StepsDelay", "CtorFir", "CtorDelay"],
     "lean_props": ["DspVerif.Props.C14", "DspVerif.Props.C14Total", "DspVerif.Props.C14Gen"],
     "harness": [{"src": "c14.cpp", "cfg": "rel",
                  "tol": {"hilb": (1e-10, 0.0), "hilbg": (1e-10, 0.0), "hilbn": (1e-10, 0.0),
